@@ -220,12 +220,10 @@ pub fn parse_create_table(
                 Keyword::CLONE => {
                     let clone = Some(parser.parse_object_name(false)?);
                     builder = builder.clone_clause(clone);
-                    break;
                 }
                 Keyword::LIKE => {
                     let like = Some(parser.parse_object_name(false)?);
                     builder = builder.like(like);
-                    break;
                 }
                 Keyword::CLUSTER => {
                     parser.expect_keyword(Keyword::BY)?;
@@ -330,7 +328,7 @@ pub fn parse_create_table(
                 builder = builder.columns(columns).constraints(constraints);
             }
             Token::EOF => {
-                if builder.columns.is_empty() {
+                if builder.columns.is_empty() && builder.clone.is_none() && builder.like.is_none() {
                     return Err(ParserError::ParserError(
                         "unexpected end of input".to_string(),
                     ));
@@ -339,7 +337,7 @@ pub fn parse_create_table(
                 break;
             }
             Token::SemiColon => {
-                if builder.columns.is_empty() {
+                if builder.columns.is_empty() && builder.clone.is_none() && builder.like.is_none() {
                     return Err(ParserError::ParserError(
                         "unexpected end of input".to_string(),
                     ));
